@@ -198,6 +198,36 @@ def undelegationStarted (s : St) (op rec : Nat) : Out × St :=
         (match s.prevKey op with | some pk => has s.vs.vals pk | none => false)
       if isVal then (.ok, hold (completionEpoch s)) else (.ok, s)
 
+/-- The two entry points of an undelegation request: a direct call of x/delegation's keeper object kept in the
+app (message server, genesis, tests) and the delegation precompile (precompiles/delegation/tx.go: Undelegate),
+which calls `UndelegateFrom` on ITS OWN COPY of the keeper (app/app.go: `evmkeeper.AvailablePrecompiles(…,
+app.DelegationKeeper, …)` takes the keeper by value). -/
+inductive Entry where
+  | keeper | precompile
+deriving DecidableEq, Repr, Inhabited
+
+/-- x/delegation/keeper/delegation.go: UndelegateFrom ends with `k.Hooks().AfterUndelegationStarted(…)`;
+keeper.go: `Hooks()` returns the no-op `MultiDelegationHooks{}` when SetHooks was not called on THIS copy of
+the keeper. `wired` = the keeper object behind the entry point had its hooks set: then the request runs
+dogfood's hook, otherwise it is accepted and nothing else happens. -/
+def undelegateVia (wired : Bool) (s : St) (op rec : Nat) : Out × St :=
+  if wired then undelegationStarted s op rec else (.ok, s)
+
+/-- app/app.go: NewExocoreApp since "fix: set the delegation hooks before the precompiles copy the delegation
+keeper": SetHooks runs before every by-value copy of the delegation keeper that can start an undelegation
+(tie: `C16_tie_no_hookless_copy_calls_hooks`), so both entry points are wired. -/
+def hooksWired : Entry → Bool := fun _ => true
+
+/-- … before that fix (finding F-16b): the precompile's copy was made first and never saw SetHooks -/
+def hooksWiredPreFix : Entry → Bool
+  | .keeper => true
+  | .precompile => false
+
+/-- x/delegation/keeper/abci.go: EndBlock at the record's CompleteBlockNumber (= BlockNumber +
+operatortypes.UnbondingExpiration, 10 blocks): a record whose hold count is 0 is completed and deleted, one with a
+positive hold count is re-queued for the next block. Epochs play no part in it. -/
+def delegationExpiryCompletes (s : St) (rec : Nat) : Bool := s.holds rec == 0
+
 /-- impl_epochs_hooks.go: AfterEpochEnd for the dogfood identifier with number `e`, followed by
 the epochs keeper's increment of the stored current epoch -/
 def epochEndHook (s : St) (e : Int) : St :=
